@@ -288,3 +288,6 @@ func HistWorker(tier string, shard, n int) {
 			return res
 		})
 }
+
+// ZoneV0 serves zone version 0 (used by the supplementary race pass).
+func ZoneV0(name string, t uint16) dohmem.Answer { return buildAnswer(name, t, 0) }
